@@ -494,7 +494,7 @@ def register_mutators(spec):
     }
     ens.update(lifecycle('result', 'on_remove', 'entity', found))
     C(W + 'remove_component', params=dict(P, entity=Ent, component_type=TypeS),
-      props=['C01', 'C02', 'C06'], requires=wfall + ['component_type != None'], returns=Comp,
+      props=['C01', 'C02', 'C05', 'C06'], requires=wfall + ['component_type != None'], returns=Comp,
       modifies=['self._components', 'self._entities', 'self._dead_entities'] + DISP_STATE,
       ghost_results={'S': ('local', 'subtype', TypeS)}, ensures=ens,
       raises={'$OtherException': {
